@@ -61,6 +61,7 @@ PROPS = {
     "C12": {
         "level": "exploration",
         "jobs": [
+            {"fuzz": "FuzzDatagram", "pkg": "./fuzz", "fuzztime": {"quick": 0, "thorough": 60}},
             {"run": "^TestC12Inputs", "checks": {"quick": 4, "thorough": 120}, "shards": {"quick": 3, "thorough": 16}, "shrink_s": 45},
             {"run": "^TestC12CatchUpTraffic", "checks": {"quick": 150, "thorough": 3000}, "shards": {"quick": 1, "thorough": 4}},
             {"run": "^TestC12Shutdown", "checks": {"quick": 3, "thorough": 30}, "shards": {"quick": 2, "thorough": 8}, "shrink_s": 45},
@@ -85,6 +86,7 @@ PROPS = {
     "C10": {
         "level": "exploration",
         "jobs": [
+            {"fuzz": "FuzzSyncReply", "pkg": "./fuzz", "fuzztime": {"quick": 0, "thorough": 60}},
             {"run": "^TestC10", "checks": {"quick": 40, "thorough": 400}, "shards": {"quick": 2, "thorough": 16}, "shrink_s": 45},
         ],
         "assumptions": [
@@ -132,6 +134,8 @@ PROPS = {
     "C15": {
         "level": "exploration",
         "jobs": [
+            {"fuzz": "FuzzStreamDecoder", "pkg": "./fuzz", "fuzztime": {"quick": 0, "thorough": 45}},
+            {"fuzz": "FuzzServerMap", "pkg": "./fuzz", "fuzztime": {"quick": 0, "thorough": 30}},
             {"run": "^TestC15Codecs", "checks": {"quick": 12000, "thorough": 150000}, "shards": {"quick": 1, "thorough": 8}},
             {"run": "^TestC15Crypto", "checks": {"quick": 4000, "thorough": 40000}, "shards": {"quick": 1, "thorough": 8}},
             {"run": "^TestC15JSONEndToEnd", "checks": {"quick": 1500, "thorough": 20000}, "shards": {"quick": 1, "thorough": 1}},
@@ -144,6 +148,7 @@ PROPS = {
     "C16": {
         "level": "exploration",
         "jobs": [
+            {"fuzz": "FuzzEnergyFile", "pkg": "./fuzz", "fuzztime": {"quick": 0, "thorough": 60}},
             {"run": "^TestC16EnergyFile", "checks": {"quick": 8000, "thorough": 80000}, "shards": {"quick": 1, "thorough": 12}},
             {"run": "^TestC16Wire", "checks": {"quick": 400, "thorough": 4000}, "shards": {"quick": 1, "thorough": 4}},
         ],
